@@ -438,7 +438,7 @@ def gen_case(rng, n_target):
 
 def generate(run, tier):
     rng = run.rng("gen")
-    n = 800 if tier == "quick" else 8000
+    n = 800 if tier == "quick" else 5000
     cases = []
     for _ in range(n):
         cases.append(gen_case(rng, rng.choice([5, 8, 12, 16, 20, 25, 30, 40])))
